@@ -294,7 +294,7 @@ def json_take_correspondence(ck, model_ok):
 
 # ----------------------------------------------------------------------------- run
 def run():
-    ck = Check("C12", level="partial")
+    ck = Check("C12", level="proof")
     ginfo = gen_sites.generate()
     pr = ck.prove()
     model_ok = True     # Model/*.vo do not depend on Gen/: the models stay executable when the translator fails closed
